@@ -19,8 +19,8 @@ def run(rep, tier):
     xh.fold(rep, MOD, res)
     rep.coverage.update({
         "evaluations": len(res), "distinct_nontrivial": len(res) - 1, "exhaustive": all(r.status in ("confirmed", "counterexample") for r in res),
-        "rule": "per client flavour (sync/async x snake on/off): CrossHair chooses the operation (5) and the caller's intent per variable (omit / None / 1-4 values incl. input models built by field name, by alias, nested, empty); the JSON posted by the real generated method through the real base client must equal the intent under GraphQL names and pass graphql-core get_variable_values",
-        "bounds": {"operations": 5, "variables_per_operation": 3, "values_per_variable": "<= 6 states", "input_nesting": 2},
+        "rule": "per client flavour (sync/async x snake on/off): CrossHair chooses the operation (6) and the caller's intent per variable (omit / None / 1-4 values incl. input models built by field name, by alias, nested, empty); the JSON posted by the real generated method through the real base client must equal the intent under GraphQL names and pass graphql-core get_variable_values",
+        "bounds": {"operations": 6, "variables_per_operation": 3, "values_per_variable": "<= 6 states", "input_nesting": 2},
         "results": [{"target": r.target.rsplit('.', 1)[-1], "status": r.status, "wall_s": round(r.wall, 1)} for r in res],
     })
     rep.sample({"operation": "V2", "intent": {"f": "Filter(b=[Filter(c=Color.RED)], c=None)", "e": "omit", "fs": "[]"}, "expected_variables": {"f": {"b": [{"c": "RED"}], "c": None}, "fs": []}})
